@@ -5,9 +5,9 @@ HARNESSES = {
 
 def _runs(tier):
     if tier == "quick":
-        return [{"harness": "pip", "args": ["--mode", "fresh", "--rows", "2"], "budget": 70},
-                {"harness": "pip", "args": ["--mode", "incremental", "--depth", "2"], "budget": 90},
-                {"harness": "pip", "args": ["--mode", "fresh", "--rows", "3", "--maxdim", "3", "--no-big"], "budget": 90}]
+        return [{"harness": "pip", "args": ["--mode", "fresh", "--rows", "2"], "budget": 60},
+                {"harness": "pip", "args": ["--mode", "incremental", "--depth", "2"], "budget": 75},
+                {"harness": "pip", "args": ["--mode", "fresh", "--rows", "3", "--maxdim", "3", "--no-big"], "budget": 75}]
     return [{"harness": "pip", "args": ["--mode", "fresh", "--rows", "3"], "budget": 1200},
             {"harness": "pip", "args": ["--mode", "incremental", "--depth", "3"], "budget": 1300}]
 
